@@ -22,6 +22,15 @@ Record pstate := {
   ps_files : list (bytes * sfile);                     (* "targets" and delegated rule files present in the tree *)
   ps_globals : list grule }.
 
+(** Global rules inherited from controller repositories: the policy tree carries, per controller, a
+    copy of the controller's metadata (gittuf-controller/<name>/), and State.preprocess adds the
+    global rules of each controller's root to the repository's own; verification checks them all. *)
+Definition with_controllers (ps : pstate) (ctl : list (bytes * list grule)) : pstate :=
+  {| ps_root_version := ps_root_version ps; ps_root_keys := ps_root_keys ps; ps_root_thr := ps_root_thr ps;
+     ps_targets_keys := ps_targets_keys ps; ps_targets_thr := ps_targets_thr ps; ps_has_targets_role := ps_has_targets_role ps;
+     ps_root_signers := ps_root_signers ps; ps_files := ps_files ps;
+     ps_globals := ps_globals ps ++ flat_map snd ctl |}.
+
 Definition env_of (signers : list key) : option (list sigrec) :=
   Some (map (fun k => {| s_hint := k; s_signer := k; s_valid := true |}) signers).
 
